@@ -218,14 +218,17 @@ def _check_fetch_mapping(prog, f, r3):
         sizearg = rv[0].value.args[2] if len(rv[0].value.args) > 2 else None
         # names bound by splitting the VALUE line
         split = [n for n in walk_no_nested(ev.node) if isinstance(n, ast.Assign) and isinstance(n.value, ast.Call) and isinstance(n.value.func, ast.Attribute) and n.value.func.attr == "split" and isinstance(n.targets[0], ast.Tuple)]
-        names_ok = bool(split) and all([e.id if isinstance(e, ast.Name) else None for e in s.targets[0].elts][:4] == ["_", wirekey, "flags", "size"] or [e.id if isinstance(e, ast.Name) else None for e in s.targets[0].elts][1:4] == [wirekey, "flags", "size"] for s in split)
+        # VALUE <key> <flags> <bytes> [<cas>]: positions 1..3 of every split of the line
+        pos = [[e.id if isinstance(e, ast.Name) else None for e in s_.targets[0].elts] for s_ in split]
+        names_ok = bool(pos) and all(len(x) >= 4 and x[1] == wirekey for x in pos) and len({(x[2], x[3]) for x in pos}) == 1
+        flagsvar, sizevar = (pos[0][2], pos[0][3]) if names_ok else (None, None)
         a = d.args
         ok = (
             orig is not None and valvar is not None and names_ok and len(a) == 3
             and isinstance(a[0], ast.Name) and a[0].id == orig
             and isinstance(a[1], ast.Name) and a[1].id == valvar
-            and isinstance(a[2], ast.Call) and call_name(a[2]) == "int" and isinstance(a[2].args[0], ast.Name) and a[2].args[0].id == "flags"
-            and isinstance(sizearg, ast.Call) and call_name(sizearg) == "int" and isinstance(sizearg.args[0], ast.Name) and sizearg.args[0].id == "size"
+            and isinstance(a[2], ast.Call) and call_name(a[2]) == "int" and isinstance(a[2].args[0], ast.Name) and a[2].args[0].id == flagsvar
+            and isinstance(sizearg, ast.Call) and call_name(sizearg) == "int" and isinstance(sizearg.args[0], ast.Name) and sizearg.args[0].id == sizevar
         )
         why = "deserialize is not called as deserialize(caller's key, bytes read for this VALUE line, int(flags of this line))"
         if ok:
